@@ -13,7 +13,7 @@ PROP = "C10"
 LEVEL = "exploration"
 SHARDS = {"quick": 2, "thorough": 16}
 THOROUGH_DEPTH = 30      # thorough tier = this many times the base thorough budget (VERIF_DEPTH overrides)
-ROUTES = ["rpy/Quaternion", "rpy/QuaternionArray", "rpy/free", "axang/Quaternion", "axang/free", "axang/DCM",
+ROUTES = ["rpy/Quaternion", "rpy/QuaternionArray", "rpy/free", "rpy/Quaternion.from_rpy", "rpy/Quaternion.from_angles", "rpy/QuaternionArray.from_rpy", "rpy/cardan", "axang/Quaternion", "axang/free", "axang/DCM",
           "explog/versor", "explog/nonversor", "power", "euler/DCM(euler=)", "euler/rot_seq", "euler/DCM(rpy=)",
           "euler/DCM(x,y,z)", "euler/rotation", "DCM.log", "explog/reused object"]
 ANG_REGIONS = ["generic", "tiny", "small", "nearpi", "band", "zero"]
@@ -104,6 +104,11 @@ def check_rpy(case, ctx):
         "rpy/QuaternionArray": (lambda: np.asarray(ahrs.QuaternionArray(rpy=A3.copy()))[0],
                                 lambda q: np.asarray(ahrs.QuaternionArray(np.array([q, q])).to_angles())[1]),
         "rpy/free": (lambda: o.rpy2q(rpy.copy()), lambda q: o.q2rpy(q.copy())),
+        # secondary entry points and aliases of the same conversions
+        "rpy/Quaternion.from_rpy": (lambda: np.asarray(ahrs.Quaternion().from_rpy(rpy.copy())), lambda q: np.asarray(ahrs.Quaternion(q.copy()).to_angles())),
+        "rpy/Quaternion.from_angles": (lambda: np.asarray(ahrs.Quaternion().from_angles(rpy.copy())), lambda q: np.asarray(ahrs.Quaternion(q.copy()).to_angles())),
+        "rpy/QuaternionArray.from_rpy": (lambda: np.asarray(ahrs.QuaternionArray().from_rpy(A3.copy()))[0], lambda q: np.asarray(ahrs.QuaternionArray(q.copy()[None]).to_angles())[0]),
+        "rpy/cardan": (lambda: o.cardan2q(rpy.copy()), lambda q: o.q2cardan(q.copy())),
     }
     for r, (fwd, back) in routes.items():
         out = call(fwd)
@@ -283,6 +288,12 @@ def check_explog_pow(ctx, ax, th, sc, a, b, q, R):
             ctx.le("q^a q^b = q^(a+b)", np.abs(rq.qmul(pa, pb) - pab).max(), tolp(abs(a) + abs(b)), route=r)
             ctx.le("q^-1 = conjugate", np.abs(pm1 - rq.qconj(q)).max(), tolp(1), route=r)
             ctx.le("q^2 = q q", np.abs(p2 - rq.qmul(q, q)).max(), tolp(2), route=r)
+    # whole-number exponents of every spelling (Python int, NumPy integer, float): q^n = rotation by n*theta, negative n included
+    out = call(lambda: {(lab, n): np.asarray(Q ** mk(n), float) for n in (-3, -2, -1, 0, 1, 2, 3) for lab, mk in (("int", int), ("np.int64", np.int64), ("float", float))})
+    if ctx.returned(out, clause="no-exception[whole-number exponents]", route=r):
+        for (lab, n), val in out.value.items():
+            if as_real_array(ctx, val, (4,), route=r, what="power") is not None:
+                ctx.le("q^n = rotation by n*theta about the same axis (whole-number exponent)", np.abs(val - rq.axang2q(ax, n * th)).max(), tolp(n), {"n": n, "exponent_type": lab, "q^n": val}, route=r)
     # --- matrix logarithm
     r = "DCM.log"
     out = call(lambda: np.asarray(DCM(R.copy()).log, float))
